@@ -399,7 +399,8 @@ def run(prop, tier):
     res.coverage["tie_translation"] = [t["detail"][:300] for t in ties]
     broken = [t for t in ties if not t["ok"]]
     if broken and not res.violations:
-        res.add_violation("translation tie broken: %s; the %s oracle found no failing input" % (broken[0]["detail"][:600], "Python-slice" if prop == "C16" else "byte-level"),
-                          {"no_longer_checks": "TieRegion.v / TieSilence.v (AudioRegion.__getitem__, seconds / milliseconds views, make_silence translated from /repo)",
-                           "tie_detail": [t["detail"] for t in broken]}, no_input=True)
+        # run_C16 / run_C17 add a violation themselves when the correspondence disagrees, so here it agreed everywhere
+        res.tie_undischarged("translation tie broken: %s -- the correspondence agrees everywhere and the %s oracle found no failing input" % (broken[0]["detail"][:600], "Python-slice" if prop == "C16" else "byte-level"),
+                             {"no_longer_checks": "TieRegion.v / TieAlgebra.v / TieSilence.v (AudioRegion.__getitem__, views, + * == len, make_silence translated from /repo)",
+                              "tie_detail": [t["detail"] for t in broken]})
     return res.finish(proof)
